@@ -1,4 +1,4 @@
 SPECIFICATION TSpec
-CONSTANTS Handles = {1, 2, 3, 4}
+CONSTANTS Handles = {1, 2, 3, 4, 5, 6, 7, 8, 9, 10, 11, 12}
 POSTCONDITION TraceAccepted
 CHECK_DEADLOCK FALSE
